@@ -47,6 +47,9 @@ func RewriteClause(decls map[ast.PredicateSym]*ast.Decl, clause ast.Clause) ast.
 	var premises []ast.Term
 	var delayNegAtom []ast.Term
 	var delayVars []map[ast.Variable]bool
+	// Pairs of variables equated while neither had a value (X = Y): they get
+	// their value together, when a later premise binds one of them.
+	var aliases [][2]ast.Variable
 	for _, p := range clause.Premises {
 		needsDelay := false
 		switch p := p.(type) {
@@ -71,6 +74,12 @@ func RewriteClause(decls map[ast.PredicateSym]*ast.Decl, clause ast.Clause) ast.
 			}
 			boundVars = boundVars.Extend(defVars)
 		case ast.Eq:
+			l, lIsVar := p.Left.(ast.Variable)
+			r, rIsVar := p.Right.(ast.Variable)
+			if lIsVar && rIsVar && boundVars.Find(l) == -1 && boundVars.Find(r) == -1 {
+				aliases = append(aliases, [2]ast.Variable{l, r})
+				break
+			}
 			m := boundVars.AsMap()
 			ast.AddVars(p, m)
 			boundVars = NewVarList(m)
@@ -90,6 +99,16 @@ func RewriteClause(decls map[ast.PredicateSym]*ast.Decl, clause ast.Clause) ast.
 				needsDelay = true
 				delayNegAtom = append(delayNegAtom, p)
 				delayVars = append(delayVars, varToBind)
+			}
+		}
+		for changed := true; changed; {
+			changed = false
+			for _, a := range aliases {
+				l, r := boundVars.Find(a[0]) != -1, boundVars.Find(a[1]) != -1
+				if l != r {
+					boundVars = boundVars.Extend([]ast.Variable{a[0], a[1]})
+					changed = true
+				}
 			}
 		}
 		if !needsDelay {
